@@ -27,7 +27,26 @@ def selftest(c, specs, td):
     if not evs:
         c.notes.append("binding self-test skipped: no suitable scenario in shard 0")
         return
+    # a giant (run-length encoded) scenario of the same shard: one copy more in the first item of the first line
+    giant, cur = [], []
+    with open(os.path.join(td, "shard00.ndjson")) as f:
+        for line in f:
+            e = json.loads(line)
+            if e["ev"] == "reset":
+                if any(x["ev"] == "rscan" and x["lines"] and x["lines"][0] and x["lines"][0][0][2] == 0 for x in cur):
+                    giant = cur
+                    break
+                cur = []
+            cur.append(e)
     out = []
+    done = False
+    for e in giant:
+        e = json.loads(json.dumps(e))
+        e["scn"] = 900003
+        if not done and e["ev"] == "rscan" and e["lines"] and e["lines"][0] and e["lines"][0][0][2] == 0:
+            e["lines"][0][0][4] += 1
+            done = True
+        out.append(e)
     for tag, scn in (("scan", 900001), ("draw", 900002)):
         done = False
         for e in evs:
@@ -46,19 +65,24 @@ def selftest(c, specs, td):
     with open(os.path.join(d, "shard00.ndjson"), "w") as f:
         for e in out:
             f.write(json.dumps(e) + "\n")
-    json.dump({"scenarios": 2, "events": len(out), "shards": 1, "lines": [len(out)]}, open(os.path.join(d, "meta.json"), "w"))
+    json.dump({"scenarios": 3 if giant else 2, "events": len(out), "shards": 1, "lines": [len(out)]}, open(os.path.join(d, "meta.json"), "w"))
     before = dict(c.cov)
     rej, _ = c.validate_traces(specs, "Wrap_Trace.tla", "Wrap_Trace.cfg", d, label="binding self-test (corrupted copy)")
     c.cov["traces_validated_against_impl"] = before["traces_validated_against_impl"]
     c.cov["evaluations"] = before["evaluations"]
     got = sorted({(r["scn"], r["why"]) for r in rej})
-    c.cov["binding_selftest"] = {"corrupted": ["scan: last grapheme of first line dropped", "draw: first two cells swapped"],
+    c.cov["binding_selftest"] = {"corrupted": ["scan: last grapheme of first line dropped", "draw: first two cells swapped"] +
+                                 (["rscan (giant text): one more copy in the first item of the first line"] if giant else []),
                                  "rejected": [list(x) for x in got]}
     import sys
     sys.path.insert(0, os.path.dirname(os.path.dirname(os.path.abspath(__file__))) + "/lib")
     import vcheck
     if not any(s == 900001 for s, _ in got):
         raise vcheck.Inconclusive("binding self-test: a scan event with a dropped grapheme was not rejected")
+    if giant and not any(s == 900003 for s, _ in got):
+        raise vcheck.Inconclusive("binding self-test: a giant scan event with one grapheme too many was not rejected")
+    if not giant:
+        c.notes.append("binding self-test: no giant scenario in shard 0")
     if not any(s == 900002 and w == "draw" for s, w in got):
         c.notes.append("binding self-test: no draw corruption applicable/rejected in the sampled scenario")
 
@@ -83,19 +107,45 @@ def main(c):
         "letter = alphabetic code point outside Han/Hiragana/Katakana/Hangul; a run of letters = consecutive letters "
         "without a UAX #14 break opportunity between them",
         "a grapheme is whitespace iff all its code points are White_Space; alphabet of generated texts: letters, "
-        "letters with combining marks, space, hyphen, LF, CRLF, ideographs, fullwidth punctuation, emoji with modifier",
+        "letters with combining marks, space, hyphen, LF, CRLF, ideographs, fullwidth punctuation (closing, and opening: "
+        "glued to what follows), no-break space (white space glued on both sides), emoji with modifier",
+        "giant texts (tens of thousands of graphemes, gen giant) are recorded run-length encoded and judged by WrapRelRL, "
+        "which MC_Wrap_rl checks against WrapRel on every small text; only the scanners are run for them, at most 200 lines "
+        "per width are judged, and a scanner gets 120 s per width",
         "Draw is called with unbounded height (and, for the hard-wrap widget, a width larger than the longest line); "
         "zero-width graphemes are not required to be visible in a drawn row",
         "termination: a scanner must report the end within graphemes+2 Scan calls and each call/Draw within 10 s",
     ]
     if not c.replay:
-        c.model_check(specs, "MC_Wrap.tla", "MC_Wrap.cfg" if c.tier == "quick" else "MC_Wrap_deep.cfg", workers=8)
-        # the oracle is not vacuous: the scanner as found (long word broken on a partly filled line, wide
-        # grapheme put in the last column) must be refuted by the same model
-        ok, _ = c.model_check(specs, "MC_Wrap.tla", "MC_Wrap_orig.cfg", workers=4, expect_violation=True)
-        c.cov["models"][-1]["expected_violation"] = True
-        if ok:
-            c.notes.append("MC_Wrap_orig.cfg unexpectedly passed: the oracle no longer refutes the original scanner")
+        # the bounded models are independent of each other: run them side by side
+        import concurrent.futures as cf
+        quick = c.tier == "quick"
+        jobs = [("MC_Wrap.cfg" if quick else "MC_Wrap_deep.cfg", 8, False),
+                # the oracle is not vacuous: the scanner as found (long word broken on a partly filled line, wide
+                # grapheme put in the last column) must be refuted by the same model
+                ("MC_Wrap_orig.cfg", 2, True),
+                # nor is the letter-run demand vacuous on glued prefixes: a scanner that cuts an over-long segment
+                # wherever the line is full (no-break space + two letters at width 2) must be refuted as well
+                ("MC_Wrap_runcut.cfg", 2, True),
+                # the run-length oracle that judges the giant texts gives the verdict of the oracle on every small
+                # text (on the scanner's lines and on damaged copies, packed maximally and one item per grapheme)
+                ("MC_Wrap_rl.cfg" if quick else "MC_Wrap_rl_deep.cfg", 4, False)]
+        if not quick:
+            jobs.append(("MC_Wrap_deep_glue.cfg", 8, False))
+        with cf.ThreadPoolExecutor(max_workers=len(jobs)) as ex:
+            res = list(ex.map(lambda j: c.model_check(specs, "MC_Wrap.tla", j[0], workers=j[1], expect_violation=j[2],
+                                                      extra=("-noGenerateSpecTE",)), jobs))
+        for (cfg, _, expect), (ok, _) in zip(jobs, res):
+            for m in c.cov["models"]:
+                if m["cfg"] == cfg and expect:
+                    m["expected_violation"] = True
+            if expect and ok:
+                c.notes.append(cfg + " unexpectedly passed: the oracle no longer refutes that scanner")
+            if not expect and not ok and "_rl" in cfg:
+                import sys
+                sys.path.insert(0, os.path.dirname(os.path.dirname(os.path.abspath(__file__))) + "/lib")
+                import vcheck
+                raise vcheck.Inconclusive(cfg + ": the run-length oracle (WrapRelRL) disagrees with WrapRel")
     lap("model_check")
     td = c.drive(drv, "c16", replay=c.replay, shards=8 if c.tier == "quick" else 16)
     lap("drive")
@@ -132,5 +182,7 @@ def main(c):
              "bounded-exhaustive: every text of length 0..4 (quick) / 0..5 (thorough) over the 7 grapheme classes "
              "{letter, letter+mark, space, hyphen, LF, ideograph, wide punctuation} x widths 1..8 (width 0 too up to "
              "length 3), thorough also every plain and rich text of length 6 over 6 classes x widths 1..6; plus seeded random "
-             "texts of 6..40 graphemes and hand-written corner texts x widths 0..12; every (text,width) is one scan "
+             "texts of 6..40 graphemes and hand-written corner texts x widths 0..12; every text of length 1..4 over {letter, space, "
+             "wide opening punctuation, no-break space} x widths 0..6 (thorough 1..5 over 6 classes x widths ..7); 12 fixed giant "
+             "texts (up to 65546 graphemes) x 1..3 widths up to 65535, scanners only; every (text,width) is one scan "
              "event judged by WrapRel!Why and one draw event judged by WrapRel!DrawOK; distinct = distinct descriptor")
